@@ -197,14 +197,26 @@ Fixpoint oracle_modes (kp : bool) (colon rgb8 cshape : bool) (init : mstate) (i 
 Definition sets_keypad_on (os : list mop) : bool :=
   existsb (fun o => match o with OSet CtlKeypadApp v => negb (v =? 0) | OSetup _ => true | _ => false end) os.
 
+(* the operation's arguments are in range (the test [check_op_v] makes first on a set and on
+   a pen), as a function of the operation alone *)
+Definition op_in_rangeb (o : mop) : bool :=
+  match o with
+  | OSet c x => ctl_in_rangeb c x
+  | OSetpen p | OChpen p => pen_in_rangeb p
+  | _ => true
+  end.
+
 (* ---- the same walk with the MODEL producing the output (token level): the statement of the
-   C12 theorems is that this never answers MBadAt, whatever the history *)
+   C12 theorems is that this never answers MBadAt, whatever the history.  The range test
+   comes before the model's step: the model is only defined on in-range arguments (a palette
+   index beyond the table makes convert_colour fault) *)
 Fixpoint hist_check (kp : bool) (colon rgb8 cshape : bool) (init : mstate) (i : nat) (t : term) (s : ostate)
          (ops : list mop) : mverdict :=
   match ops with
   | [] => MOk i
   | o :: rest =>
       if os_stopped s && negb (match o with ODestroy | OGet _ => true | _ => false end) then MOutOfRange i
+      else if negb (op_in_rangeb o) then MOutOfRange i
       else
         match mode_step t o with
         | None => MBadAt i 99
